@@ -493,6 +493,12 @@ class ExprMixin:
                     return z3.And(z3.Not(x.isnone), z3.Select(h.mem, to_z3(x.inner, h.kt)))
                 if isinstance(x, VNone) and h.kt[0] != 'opt':
                     return z3.BoolVal(False)
+                try:
+                    if not isinstance(x, VOpt) and h.kt[0] != 'opt' and type_of_val(x, st) != h.kt \
+                            and not (h.kt[0] == 'int' and isinstance(x, (VInt, VBool))):
+                        return z3.BoolVal(False)
+                except TypeError:
+                    pass
                 return z3.Select(h.mem, to_z3(x, h.kt))
         if isinstance(cont, VObj) and cont.sort in getattr(self, 'member_sorts', {}):
             return self.member_sorts[cont.sort](self, st, cont, x)
@@ -590,7 +596,10 @@ class ExprMixin:
         def fin(s, vs):
             if not vs:
                 return k(s, s.alloc(HList(None, None, z3.IntVal(0))))
-            return k(s, self.new_list(s, type_of_val(vs[0], s), vs))
+            et = type_of_val(vs[0], s)
+            if et[0] in ('list', 'dict', 'rec'):
+                et = T_ANY                        # nested containers: opaque elements (boxed)
+            return k(s, self.new_list(s, self.anyfy(et), vs))
         return self.ev_list(node.elts, st, fin)
 
     def ev_Dict(self, node, st, k):
